@@ -433,7 +433,7 @@ func runC06(ctx *Ctx) {
 			c.Sec = r.Int63n(4000000000)
 		}
 		if !c.Zero {
-			c.ZoneSec = []int{0, 3600, -3600, 19800, 20700, -34200, 50400, 45900, 30, -1800, 86340}[r.Intn(11)]
+			c.ZoneSec = []int{0, 3600, -3600, 19800, 20700, -34200, 50400, 45900, 30, -1800, 86340, 86400, 89940, 90000, -93600, 171120}[r.Intn(16)]
 		}
 		tags := []string{}
 		if r.Intn(8) == 0 {
